@@ -3,10 +3,12 @@
 
 def nontrivial(req, obs):
     f = req.split()
-    if f[0] != "pq":
-        return False
-    # the handler failed (the middleware had something to decide)
-    return len(f) == 15 and f[13] != "nil"
+    if f[0] in ("pq", "pqf"):
+        # the handler failed (the middleware had something to decide)
+        return len(f) == 15 and f[13] != "nil"
+    if f[0] == "pq2":
+        return len(f) == 31 and (f[15] != "nil" or f[29] != "nil")
+    return False
 
 
 PROP = {
@@ -21,6 +23,8 @@ PROP = {
         "Wm.Poison.acked_when_poisoned", "Wm.Poison.poison_before_settle",
         "Wm.Poison.stamp_overwrites", "Wm.Poison.stamp_nodup",
         "Wm.Poison.stream_eq_map", "Wm.Poison.stream_publishes_once_each",
+        "Wm.Poison.stateful_filter_consulted_once", "Wm.Poison.stateful_eq_pure",
+        "Wm.Poison.stateful_acked_implies_handled_or_poisoned", "Wm.Poison.stateful_verdict", "Wm.Poison.budget_filter_stream",
     ],
     "tie_theorems": ["Wm.GoPoison.extracted_middleware_eq_model"],
     "harness": "c13",
@@ -34,7 +38,18 @@ PROP = {
             "rt (inside a running message.Router, scripted subscriber/publishers, middleware router-level and handler-level): per filter "
             "family and level one router with a stream of 40 (quick) / 1200 (thorough) messages, poison publisher failing from the k-th "
             "message on or at random, the Router's own publisher failing in a quarter of the cases; settlement read from Acked()/Nacked(), "
-            "the returned (events, err) read by an observer middleware outside the poison middleware. Non-trivial = the handler failed; "
+            "the returned (events, err) read by an observer middleware outside the poison middleware. "
+            "pqf (stateful filters): PoisonQueueWithFilter with a filter scripted as a sequence of answers (budgets 1100.., alternating, "
+            "single answers) - 13 answer scripts x {ok, errors.New, sentinel, multierror} x publisher ok/fail stand-alone, and 12 (quick) "
+            "streams of 8 messages through one middleware value stand-alone and inside a Router; the number of consultations per message "
+            "is observed; rule: the answer the filter gave is the verdict (published once and reported as success, or still failing), "
+            "one consultation per failed message, acked => handled or in the poison topic. "
+            "pq2 (two messages through ONE middleware value, each compared with the model of that message alone): forced interleavings - "
+            "A is stopped inside the filter / inside the poison publisher's Publish / at the end of its handler (channels, no timing) while "
+            "B (handled, accepted failure, refused failure) runs to completion through the same wrapped handler, stand-alone and inside a "
+            "Router whose handler processes both concurrently; and sequences - stand-alone use then a Router handler, two handlers with "
+            "different topic/name/subscriber of one Router (middleware router-level and added to each handler), a handled message of the "
+            "other handler first; rule: each poisoned message carries its OWN handler's context values and its own error/outputs. Non-trivial = the handler failed; "
             "distinct = distinct (request, observation) pairs.",
     "trusted_base": [
         "Lean 4.33.0 kernel; axioms per theorem listed under theorem_axioms (subset of propext, Classical.choice, Quot.sound)",
@@ -47,7 +62,8 @@ PROP = {
         "Go race detector for data-race freedom (runtime fact, not a theorem)",
     ],
     "assumptions": [
-        "the filter is a function of the error value (the theorems quantify over arbitrary such functions; a filter with side effects is outside the model)",
+        "the filter is a function of the error value, or a stateful filter whose answers depend only on how often it was consulted "
+        "(scripted answer sequences; theorems stateful_*, budget_filter_stream); a filter that inspects or mutates the message is outside the model",
         "the message has a non-nil Metadata map (message.NewMessage always makes one); a nil map makes the middleware panic in Metadata.Set",
         "stand-alone calls carry no Router context values (the keys are unexported), so non-empty topic/handler/subscriber names are exercised in mode rt only",
         "a poison publisher that panics or blocks is outside the model (outcomes: accept, error)",
